@@ -3,18 +3,21 @@ pub mod c01;
 pub mod c02;
 pub mod c03;
 pub mod c04;
+pub mod c05;
 pub mod c06;
 pub mod c07;
 pub mod c08;
 pub mod c09;
 pub mod c10;
 pub mod c11;
+pub mod c12;
 pub mod c13;
 pub mod c14;
 pub mod c15;
 pub mod c16;
 pub mod c17;
 pub mod c18;
+pub mod c19;
 pub mod c20;
 
 use crate::engine::CaseOutcome;
@@ -30,17 +33,20 @@ pub const PROPS: &[PropEntry] = &[
     PropEntry { id: "C02", run: c02::run_check, case: c02::case },
     PropEntry { id: "C03", run: c03::run_check, case: c03::case },
     PropEntry { id: "C04", run: c04::run_check, case: c04::case },
+    PropEntry { id: "C05", run: c05::run_check, case: c05::case },
     PropEntry { id: "C06", run: c06::run_check, case: c06::case },
     PropEntry { id: "C07", run: c07::run_check, case: c07::case },
     PropEntry { id: "C08", run: c08::run_check, case: c08::case },
     PropEntry { id: "C09", run: c09::run_check, case: c09::case },
     PropEntry { id: "C10", run: c10::run_check, case: c10::case },
     PropEntry { id: "C11", run: c11::run_check, case: c11::case },
+    PropEntry { id: "C12", run: c12::run_check, case: c12::case },
     PropEntry { id: "C13", run: c13::run_check, case: c13::case },
     PropEntry { id: "C14", run: c14::run_check, case: c14::case },
     PropEntry { id: "C15", run: c15::run_check, case: c15::case },
     PropEntry { id: "C16", run: c16::run_check, case: c16::case },
     PropEntry { id: "C17", run: c17::run, case: c17::case },
     PropEntry { id: "C18", run: c18::run_check, case: c18::case },
+    PropEntry { id: "C19", run: c19::run_check, case: c19::case },
     PropEntry { id: "C20", run: c20::run_check, case: c20::case },
 ];
